@@ -62,7 +62,7 @@ func kitConfig(o kitCfgOpts) *kitCfg {
 		TokenUri:           vn.StringIn("cfg-token-uri", sb+1, alphaLower),
 		CallbackUri:        vn.URL(scheme, host, port, cbPath, ""),
 		ClientId:           clientID,
-		ClientSecretConfig: &oidcv1.OIDCConfig_ClientSecret{ClientSecret: vn.String("cfg-client-secret", sb)},
+		ClientSecretConfig: &oidcv1.OIDCConfig_ClientSecret{ClientSecret: vn.Secret(vn.String("cfg-client-secret", sb), 1)},
 		Scopes:             []string{"openid"},
 		CookieNamePrefix:   vn.StringIn("cfg-cookie-prefix", 2, alphaLower),
 		IdToken:            &oidcv1.TokenConfig{Header: vn.StringIn("cfg-id-header", sb, alphaLower), Preamble: vn.StringIn("cfg-id-preamble", sb, alphaID)},
@@ -239,8 +239,8 @@ func kitStoredTokens(o kitTokOpts) *oidc.TokenResponse {
 	}
 	id := vn.JWT(n+"-id", wf, int(vn.Int(n+"-nonce-kind", 0, 1)), vn.StringIn(n+"-nonce", 2, alphaID), 1, o.clientID, "", vn.Time(n+"-exp"), vn.Bool(n+"-sig"))
 	t := &oidc.TokenResponse{IDToken: id}
-	t.AccessToken = vn.StringIn(n+"-access", 2, alphaID)
-	t.RefreshToken = vn.StringIn(n+"-refresh", 2, alphaID)
+	t.AccessToken = vn.Secret(vn.StringIn(n+"-access", 2, alphaID), 8)
+	t.RefreshToken = vn.Secret(vn.StringIn(n+"-refresh", 2, alphaID), 4)
 	t.AccessTokenExpiresAt = vn.TimeOrZero(n + "-access-exp")
 	return t
 }
@@ -250,7 +250,7 @@ func kitAuthState(n string) *oidc.AuthorizationState {
 		State:        vn.StringIn(n+"-state", 2, alphaID),
 		Nonce:        vn.StringIn(n+"-nonce", 2, alphaID),
 		RequestedURL: vn.String(n+"-url", 3),
-		CodeVerifier: vn.StringIn(n+"-verifier", 2, alphaID),
+		CodeVerifier: vn.Secret(vn.StringIn(n+"-verifier", 2, alphaID), 2),
 	}
 	vn.Assume(vn.And(len(a.State) > 0, len(a.Nonce) > 0, len(a.RequestedURL) > 0, len(a.CodeVerifier) > 0))
 	return a
@@ -397,8 +397,8 @@ func (p *symIdP) body() string {
 	b.idToken = vn.JWT("idp-id", wellFormed, nonceKind, nonce, naud, aud0, vn.StringIn("idp-aud1", 2, alphaID), p.idExp, sig)
 	vn.JSONStr(doc, "id_token", b.idKind, b.idToken)
 	vn.JSONStr(doc, "token_type", b.ttKind, b.tokenType)
-	b.access = vn.StringIn("idp-access", 2, alphaID)
-	b.refresh = vn.StringIn("idp-refresh", 2, alphaID)
+	b.access = vn.Secret(vn.StringIn("idp-access", 2, alphaID), 8)
+	b.refresh = vn.Secret(vn.StringIn("idp-refresh", 2, alphaID), 4)
 	vn.JSONStr(doc, "access_token", 1, b.access)
 	vn.JSONStr(doc, "refresh_token", 1, b.refresh)
 	// expires_in: 0 absent, 2 integer; a dishonest provider may also send a string (1), a
@@ -460,7 +460,7 @@ func (g *symGen) GenerateState() string {
 	return g.state
 }
 func (g *symGen) GenerateCodeVerifier() string {
-	g.verifier = vn.StringIn("gen-verifier", 2, alphaID)
+	g.verifier = vn.Secret(vn.StringIn("gen-verifier", 2, alphaID), 2)
 	vn.Assume(len(g.verifier) > 0)
 	return g.verifier
 }
